@@ -27,6 +27,7 @@ class RefPeer:
         self.errors = []            # (t, kind, msg)  format / protocol errors of the OTHER side
         self.events = []            # (t, what, detail)
         self.silent = False
+        self.fates = []             # consumed in order, one per received RTS: {"f": "clean"|"silent"|"abort"|"ignore_dt"|"no_ack", "k": int}
         self.accept_rts = True
         self.respond_eom = True
         bus.attach(self)
@@ -90,10 +91,12 @@ class RefPeer:
             if f["priority"] != f["priority"]:
                 pass
             self.events.append((self.sim.now, "rts", (src, size, packets, limit, pgn)))
-            if not self.accept_rts:
+            fate = self.fates.pop(0) if self.fates else {"f": "clean"}
+            if not self.accept_rts or fate["f"] == "silent":
                 return
             s = {"mode": "rts", "src": src, "dst": dst, "size": size, "packets": packets, "limit": limit, "pgn": pgn,
-                 "data": bytearray(), "next": 1, "window_end": 0, "holds_left": 0, "done": False}
+                 "data": bytearray(), "next": 1, "window_end": 0, "holds_left": 0, "done": False, "fate": fate,
+                 "grants_made": 0, "dt_seen": 0}
             self.rx_sessions[(src, dst)] = s
             self._grant(s)
         elif c == R.BAM and dst == 255:
@@ -141,12 +144,13 @@ class RefPeer:
             s["acked"] = self.sim.now
         elif c == R.ABORT and dst == self.sa:
             self.events.append((self.sim.now, "abort", (src, d[1], pgn)))
+            # an abort names its connection by PGN: the two directions of a pair are distinct connections
             s = self.tx_sessions.get((self.sa, src))
-            if s is not None and not s["done"]:
+            if s is not None and not s["done"] and s["pgn"] == pgn:
                 s["done"] = True
                 s["aborted"] = (self.sim.now, d[1])
             s = self.rx_sessions.get((src, self.sa))
-            if s is not None and not s["done"]:
+            if s is not None and not s["done"] and s["pgn"] == pgn:
                 s["done"] = True
                 s["aborted"] = (self.sim.now, d[1])
         elif c not in (R.RTS, R.CTS, R.EOM_ACK, R.BAM, R.ABORT):
@@ -168,6 +172,16 @@ class RefPeer:
                 self._send_cts(s, 0, s["next"])
                 self.sim.schedule(self.sim.now + self.hold_gap, go)
                 return
+            fate = s.get("fate") or {}
+            if fate.get("f") == "abort" and s.get("grants_made", 0) >= fate.get("k", 0):
+                s["done"] = True
+                s["aborted_by_me"] = self.sim.now
+                if self.fd:
+                    self.send(7, R.FD_CM_PF, s["src"], R.fd_abort(s["session"], 1, s["pgn"]))
+                else:
+                    self.send(7, R.TP_CM_PF, s["src"], R.tp_abort(1, s["pgn"]))
+                return
+            s["grants_made"] = s.get("grants_made", 0) + 1
             g = self._next(self.grants, "_gi")
             lim = s["limit"] if s["limit"] else 255
             n = max(1, min(g, lim, remaining))
@@ -192,6 +206,11 @@ class RefPeer:
             self._err("dt-length", "TP.DT with %d data bytes" % len(d))
             return
         seq = d[0]
+        s["dt_seen"] = s.get("dt_seen", 0) + 1
+        fate = s.get("fate") or {}
+        if fate.get("f") == "ignore_dt" and s["dt_seen"] >= fate.get("k", 1):
+            s["lost"] = True
+            return
         if seq != s["next"]:
             self._err("dt-sequence", "TP.DT sequence %d, expected %d" % (seq, s["next"]))
             return
@@ -209,7 +228,7 @@ class RefPeer:
             msg = bytes(s["data"][:s["size"]])
             s["done"] = True
             self.messages.append((self.sim.now, src, dst, s["pgn"], msg, s["mode"]))
-            if s["mode"] == "rts" and self.respond_eom:
+            if s["mode"] == "rts" and self.respond_eom and (s.get("fate") or {}).get("f") != "no_ack":
                 self.send_later(self._lat(), 7, R.TP_CM_PF, src, R.tp_eom_ack(s["size"], s["packets"], s["pgn"]))
         elif s["mode"] == "rts" and seq == s["window_end"]:
             self._grant(s)
@@ -236,6 +255,10 @@ class RefPeer:
         def one(i):
             def go():
                 if s["done"] or self.silent:
+                    return
+                if s.get("stop_after") is not None and i > s["stop_after"]:
+                    s["done"] = True
+                    s["abandoned"] = self.sim.now
                     return
                 s["sent"] = max(s["sent"], i)       # state first: the reply may be processed inside send()
                 self._send_dt(s, i)
@@ -274,6 +297,10 @@ class RefPeer:
             def go():
                 if self.silent:
                     return
+                if s.get("stop_after") is not None and i > s["stop_after"]:
+                    s["done"] = True
+                    s["abandoned"] = self.sim.now
+                    return
                 self._send_dt(s, i)
                 s["sent"] = i
                 if i < n:
@@ -306,11 +333,12 @@ class RefPeer:
             if limit == 0:
                 self._err("rts-limit", "FD RTS max segments per CTS = 0")
             self.events.append((self.sim.now, "rts", (src, size, segs, limit, pgn, sess)))
-            if not self.accept_rts:
+            fate = self.fates.pop(0) if self.fates else {"f": "clean"}
+            if not self.accept_rts or fate["f"] == "silent":
                 return
             s = {"mode": "rts", "src": src, "dst": dst, "size": size, "packets": segs, "limit": limit, "pgn": pgn,
                  "data": bytearray(), "next": 1, "window_end": 0, "holds_left": 0, "done": False, "session": sess,
-                 "complete": False}
+                 "complete": False, "fate": fate, "grants_made": 0, "dt_seen": 0}
             self.rx_sessions[(sess, src, dst)] = s
             self._grant(s)
         elif c == R.FD_BAM and dst == 255:
@@ -330,13 +358,16 @@ class RefPeer:
                 self._err("eoms-fields", "EOMS size/segments %d/%d, session announced %d/%d" % (f1, f2, s["size"], s["packets"]))
             if pgn != s["pgn"]:
                 self._err("eoms-pgn", "EOMS PGN 0x%X, session PGN 0x%X" % (pgn, s["pgn"]))
+            if not s["complete"] and s.get("lost"):
+                s["done"] = True
+                return
             if not s["complete"]:
                 self._err("eoms-early", "EOMS before all %d segments were received (next expected %d)" % (s["packets"], s["next"]))
                 s["done"] = True
                 return
             s["done"] = True
             self.messages.append((self.sim.now, src, dst, s["pgn"], bytes(s["data"][:s["size"]]), s["mode"]))
-            if s["mode"] == "rts" and self.respond_eom:
+            if s["mode"] == "rts" and self.respond_eom and (s.get("fate") or {}).get("f") != "no_ack":
                 self.send_later(self._lat(), 7, R.FD_CM_PF, src, R.fd_eoma(sess, s["size"], s["packets"], s["pgn"]))
         elif c == R.FD_CTS and dst == self.sa:
             s = self.tx_sessions.get((sess, self.sa, src))
@@ -372,11 +403,11 @@ class RefPeer:
         elif c == R.FD_ABORT and dst == self.sa:
             self.events.append((self.sim.now, "abort", (src, b8, pgn, sess)))
             s = self.tx_sessions.get((sess, self.sa, src))
-            if s is not None and not s["done"]:
+            if s is not None and not s["done"] and s["pgn"] == pgn:
                 s["done"] = True
                 s["aborted"] = (self.sim.now, b8)
             s = self.rx_sessions.get((sess, src, self.sa))
-            if s is not None and not s["done"]:
+            if s is not None and not s["done"] and s["pgn"] == pgn:
                 s["done"] = True
                 s["aborted"] = (self.sim.now, b8)
         elif c not in (R.FD_RTS, R.FD_CTS, R.FD_EOMS, R.FD_EOMA, R.FD_BAM, R.FD_ABORT):
@@ -396,6 +427,11 @@ class RefPeer:
         if (d[0] & 0xF) != 0:
             self._err("dt-dtfi", "DTFI %d" % (d[0] & 0xF))
         seg = R.from_le24(d[1:4])
+        s["dt_seen"] = s.get("dt_seen", 0) + 1
+        fate = s.get("fate") or {}
+        if fate.get("f") == "ignore_dt" and s["dt_seen"] >= fate.get("k", 1):
+            s["lost"] = True
+            return
         if seg != s["next"]:
             self._err("dt-sequence", "FD.TP.DT segment %d, expected %d" % (seg, s["next"]))
             return
